@@ -2277,9 +2277,9 @@ def run_c13(ctx) -> Corr:
             for op in reg_ops(nodes):
                 batch.ask(op)
             if c.get("inner"):
-                # a registry saved inside a history: the model is asked what the theorems are about (the registry is in
-                # RegOK, load (save r), the bytes of the file); the file-value questions are asked at the histories' ends
-                c["m_inner"] = {"regok": batch.ask("regok"), "loadsave": batch.ask("loadsave"), "savetext": batch.ask("savetext")}
+                # a registry saved inside a history: the model is asked what the reachability theorems are about (the
+                # registry is in RegOK, load (save r)); the file-value and text questions are asked at the histories' ends
+                c["m_inner"] = {"regok": batch.ask("regok"), "loadsave": batch.ask("loadsave")}
                 continue
             c["m"] = {"save": batch.ask("save"), "regok": batch.ask("regok"), "loadsave": batch.ask("loadsave"),
                       "load": batch.ask("load " + json_tokens(c["saved"])), "legacy": batch.ask("legacy " + json_tokens(c["saved"])),
@@ -2349,8 +2349,6 @@ def run_c13(ctx) -> Corr:
         if m is None:
             continue
         rp = c["replay"]
-        if batch[m["savetext"]] != hexb(c["bytes"]):
-            corr.disagree("text written by save (json.dumps sort_keys indent=2) vs saveText", {**rp, "impl": c["text"][:600]})
         want = "1" if in_domain(c["nodes"]) else "0"
         if batch[m["regok"]] != want:
             corr.disagree("RegOK (model) vs the domain restated in Python", {**rp, "model": batch[m["regok"]], "python": want})
